@@ -457,9 +457,18 @@ def thresholds(kind, rng, tier):
     return sorted(set(ks))
 
 
+def fail_styles(var):
+    """Ways for the property to fail: the boundary must be reached whatever the style, also when the message or panic value shows the data."""
+    return [op("fatalf", site=1), op("fatalf", site=1, var=var), op("fatal", site=2, var=var), op("errorf", text="too big:", var=var), op("errorf", text="const"),
+            op("error", text="v", var=var), op("fail"), op("failnow", site=1), op("panic", site=1, val="data", var=var), op("panic", site=2, val="dataerr", var=var),
+            op("panic", site=1, val="struct"), op("rterr", site=1, val="indexv", var=var), op("rterr", site=2, val="div")]
+
+
 def c12_scenarios(tier, seed):
     rng = random.Random(seed)
     out = []
+    styles = fail_styles("x")
+    nstyle = 0
     nseeds = 1 if tier == "quick" else 6
     for kind in sorted(INT_KINDS):
         if kind == "Uintptr" and tier == "quick":
@@ -471,7 +480,8 @@ def c12_scenarios(tier, seed):
                 if direction == "le" and not signed and tier == "quick" and k not in (0, 5):
                     continue
                 for sd in seeds(rng, nseeds):
-                    body = [draw(g(kind), "x", "x"), iff("x", direction, k, [op("fatalf", site=1)])]
+                    nstyle += 1
+                    body = [draw(g(kind), "x", "x"), iff("x", direction, k, [styles[nstyle % len(styles)] if nstyle % 2 else op("fatalf", site=1)])]
                     # far-out thresholds are found through the overflow-to-extreme path (a few per cent of the draws)
                     fl = {"checks": 3000, "seed": sd, "nofailfile": "true"}
                     st = rng.choice(["", "", "5s", "8s"])      # these minimizations take milliseconds: any of these budgets is "enough time"
@@ -499,7 +509,8 @@ def c12_scenarios(tier, seed):
             if tier == "quick" and cn in ("slice_int", "slice_bool", "stringof") and k not in (0, 3):
                 continue
             for sd in seeds(rng, nseeds):
-                body = [draw(gen, "c", "c"), iff("c", "lenge", k, [op("fatalf", site=1)])]
+                nstyle += 1
+                body = [draw(gen, "c", "c"), iff("c", "lenge", k, [fail_styles("c")[nstyle % len(styles)] if nstyle % 2 else op("fatalf", site=1)])]
                 out.append(scenario("c12-%s-len%d-%d" % (cn, k, sd), {"body": body}, {"checks": 3000, "seed": sd, "nofailfile": "true", "shrinktime": "10m"},
                                     tag={"mayfail": True, "goal": "len", "k": k, "zeros": zeros, "coll": cn}))
     return out
